@@ -60,7 +60,7 @@ pub fn spec(id: &str) -> Option<PropSpec> {
     };
     match id {
         "C06" => Some(base(
-            vec![cs(&AGG, "agg-protocol", 350, 6000, false), cs(&AGG, "agg-direct", 250, 5000, false), cs(&AGG, "agg-every-n", 12, 63 * 6 * 3, false), cs(&AGG, "agg-max-n", 6, 48, false), cs(&CONC, "conc-agg", 100, 1000, false), cs(&AGG, "agg-block-sizes", 122, 366, true), cs(&AGG, "mixed-blocks", 4, 8, true)],
+            vec![cs(&AGG, "agg-protocol", 350, 6000, false), cs(&AGG, "agg-direct", 250, 5000, false), cs(&AGG, "agg-every-n", 12, 63 * 6 * 3, false), cs(&AGG, "agg-max-n", 6, 48, false), cs(&CONC, "conc-agg", 100, 1000, false), cs(&AGG, "agg-block-sizes", 122, 366, true), cs(&AGG, "agg-very-long", 2, 24, true), cs(&AGG, "mixed-blocks", 4, 8, true)],
             "cases = (group, scheme, list length, list kind {exact, permuted, reversed, one of 12 relay perturbations}, repeated-message flag, reference decision) over arrival histories under loss/duplication/reordering with and without de-duplication at the aggregator; \
              class `agg-every-n` walks n = 2..=64; non-trivial = every list other than the exact one",
             vec!["cur-blst"],
@@ -102,13 +102,13 @@ pub fn spec(id: &str) -> Option<PropSpec> {
             vec!["cur-blst", "ref (draft tags)"],
         )),
         "C03" => Some(base(
-            vec![cs(&SIGN, "interop", 1500, 30000, false), cs(&SIGN, "interop-lengths", COMPOSITE_CELLS, COMPOSITE_CELLS * 3, true), cs(&SIGN, "interop-big", 24, 72, true), cs(&CONC, "conc-interop", 200, 3000, false)],
+            vec![cs(&SIGN, "interop", 1500, 30000, false), cs(&SIGN, "interop-lengths", COMPOSITE_CELLS, COMPOSITE_CELLS * 3, true), cs(&SIGN, "interop-big", 24, 72, true), cs(&SIGN, "interop-long-lists", 2, 16, true), cs(&CONC, "conc-interop", 200, 3000, false)],
             "cases = (group, key class, seed length, message-length class, scheme, aggregate size, repeated-message flag); the reference implementation is a peer: byte equality of KeyGen / SkToPk / CoreSign x3 / PopProve / Aggregate and mutual acceptance; \
              no schedule or fault influences this property (stated in DESIGN.md): non-trivial counts cases with edge keys, seeds shorter than 32 bytes or repeated aggregate messages",
             vec!["cur-blst", "ref (draft tags)"],
         )),
         "C04" => Some(base(
-            vec![cs(&IDENT, "family", 120, 1200, false), cs(&IDENT, "agg-positions", 240, 63 * 6 * 3 * 2, false), cs(&IDENT, "agg-positions-wide", 16, 28, true), cs(&CONC, "conc-ident", 24, 240, false)],
+            vec![cs(&IDENT, "family", 120, 1200, false), cs(&IDENT, "agg-positions", 240, 63 * 6 * 3 * 2, false), cs(&IDENT, "agg-positions-wide", 32, 76, true), cs(&CONC, "conc-ident", 96, 480, false)],
             "cases = (entry point, which point-/scalar-typed argument is the identity / zero, with which companion values that make the pairing equation hold trivially, scheme, group) — about 90 cases per (scheme, group), enumerated completely in every `family` run (runs differ in message and key); \
              `agg-positions` inserts an identity-key pair into a valid aggregate list at first / middle / last / random positions with its own, a neighbour's or another signer's message for n in 2..=64; `agg-positions-wide` puts it at index 254..257 (thorough: also 65 534..65 536) of a list of equal pairs; all cases non-trivial",
             vec!["cur-blst"],
@@ -267,6 +267,7 @@ pub fn spec(id: &str) -> Option<PropSpec> {
                 v.push(cst(&AGG, "multi-protocol", 20, 400, mode));
                 v.push(cst(&AGG, "agg-max-n", 6, 24, mode));
                 v.push(cst(&AGG, "agg-block-sizes", 40, 122, mode));
+                v.push(cst(&AGG, "agg-very-long", 2, 12, mode));
                 v.push(cst(&THRESH, "clean", 20, 400, mode));
                 v.push(cst(&THRESH, "byzantine", 30, 600, mode));
                 v.push(cst(&THRESH, "large", 2, 16, mode));
@@ -289,8 +290,8 @@ pub fn spec(id: &str) -> Option<PropSpec> {
             needs_entropy: true,
             needs_clock: true,
             ..base(
-                vec![cs(&ENTROPY, "history", 390, 390, false), cs(&ENTROPY, "marathon", 10, 10, false), cs(&ENTROPY, "fork", 156, 156, true), cs(&ENTROPY, "processes", 24, 48, false), cs(&CONC, "conc-fresh", 72, 288, false)],
-                "cases = (randomized entry point, group, mode in {one call sequence (8N calls), 8 caller threads, 4 process incarnations, two device seeds, all entry points interleaved and compared with each other, two child processes seam on/off, `fork`: a process that has made 0..5 randomized calls forks twice and parent and both workers call again (12 entry points x 2 groups x 6 warm-up counts), `marathon`: 2^18+4 (quick) / 2^22+4 (thorough) calls of one cheap entry point on one thread}); every run is also compared with the earlier runs on its worker thread; \
+                vec![cs(&ENTROPY, "history", 420, 420, false), cs(&ENTROPY, "marathon", 10, 10, false), cs(&ENTROPY, "fork", 168, 168, true), cs(&ENTROPY, "processes", 24, 48, false), cs(&CONC, "conc-fresh", 72, 288, false)],
+                "cases = (randomized entry point, group, mode in {one call sequence (8N calls), 8 caller threads, 4 process incarnations, two device seeds, all entry points interleaved and compared with each other, two child processes seam on/off, `fork`: a process that has made 0..5 randomized calls forks twice and parent and both workers call again (every entry point x 2 groups x 6 warm-up counts), `marathon`: 2^18+4 (quick) / 2^22+4 (thorough) calls of one cheap entry point on one thread}); every run is also compared with the earlier runs on its worker thread; \
                  N identical-argument calls per case (quick 256, thorough 4096) at a frozen simulated clock; every exposed ephemeral (u, masks, c1, recomputed r1, commitment, secret, key, challenge, share values) must be pairwise distinct; all cases are non-trivial",
                 vec!["cur-blst"],
             )
